@@ -11,7 +11,7 @@ from props import common
 
 ID = "C04"
 LEVEL = "proof"
-LEVEL_TEXT = 'Lean 4 theorems over the transcription of every toJsonFragment/fromJsonFragment/ed: decode(encode t) = immut t for all 19 primitives at any nesting (lossless, names and empty sparse containers included), identical re-serialisation, strictness (no null, non-finite numbers as strings), and interchangeability of the reload with the original under zero(), *, + and copy(); tied to /repo by round trips of generated states through the real Factory.fromJson (directly, via string, via file) with the reloaded container used in +, *, zero(), copy(), alone and mixed with live containers.'
+LEVEL_TEXT = 'Lean 4 theorems over the transcription of every toJsonFragment/fromJsonFragment/ed: decode(encode t) = immut t for all 19 primitives at any nesting (lossless, names and empty sparse containers included), identical re-serialisation, strictness (no null, non-finite numbers as strings), and interchangeability of the reload with the original under zero(), *, + and copy(); tied to /repo by round trips of generated states through the real Factory.fromJson (directly, via string, via file) with the reloaded container used in +, *, zero(), copy(), alone and mixed with live containers. Also proved (history_roundtrip): every state reachable by an operation history from an empty tree that is uniform through its templates round-trips, the hypothesis being evaluated on every generated empty tree.'
 LEVEL_NOTE = "Python's json module (text level) is trusted; known finding C04-bool-category (bool-valued categories) is excluded from the generator. Hypotheses good/uniform/knownCtype are executable and evaluated on the model's copy of every serialised state."
 TECHNIQUE = 'Lean 4 proof (codec round trip for all primitives) + correspondence through the real JSON codec + oracle'
 LEAN_MODULE = "Hg.Props.C04"
